@@ -624,7 +624,12 @@ class Polyhedron(Shape3D):
         max_attempts = 10
         attempt = 0
         current_rotation = [1, 0, 0, 0]
-        vertices = self.vertices
+        # miniball compares squared distances with an absolute tolerance, so it is run on
+        # the vertices moved to the origin and scaled to unit size.
+        origin = np.mean(self.vertices, axis=0)
+        scale = np.max(np.abs(self.vertices - origin))
+        unit_vertices = (self.vertices - origin) / scale
+        vertices = unit_vertices
         while attempt < max_attempts:
             attempt += 1
             try:
@@ -633,14 +638,15 @@ class Polyhedron(Shape3D):
             except np.linalg.LinAlgError:
                 current_rotation = rowan.random.rand(1)
                 # Always rotate the original vertices: only this rotation is undone below.
-                vertices = rowan.rotate(current_rotation, self.vertices)
+                vertices = rowan.rotate(current_rotation, unit_vertices)
         else:
             raise RuntimeError("Unable to solve for a bounding sphere.")
 
         # The center must be rotated back to undo any rotation.
         center = rowan.rotate(rowan.conjugate(current_rotation), center)
+        center = np.reshape(center, -1) * scale + origin
 
-        return Sphere(np.sqrt(r2), center)
+        return Sphere(np.sqrt(r2) * scale, center)
 
     @property
     def circumsphere(self):
